@@ -362,27 +362,47 @@ def main(run):
         okk = vals == {'true': 1, 'false': 0}
     if not okk:
         run.violation('wiring|first_segment_offset', 'PathImpl::first_segment_offset is not `if self.is_absolute() { 1 } else { 0 }`')
-    run.count('wiring_rules')
-    b = P.body(PI + 'is_absolute')
-    t = terms.Terms(b).ret() if b else None
-    if not (t and t[0] == 'call' and t[1].endswith('<impl [T]>::starts_with') and t[2][0][0] == 'call' and t[2][0][1].endswith('::as_bytes') and t[2][1] == ('bytes', b'/')):
-        run.violation('wiring|is_absolute', 'PathImpl::is_absolute is not as_bytes().starts_with(b"/")')
-    run.count('wiring_rules')
-    b = P.body(PI + 'is_empty')
-    t = terms.Terms(b).ret() if b else None
-    okk = False
-    if t and t[0] == 'phi' and len(t[1]) == 2:
-        one = [x for x in t[1] if x == ('int', 1)]
-        eq = [x for x in t[1] if x[0] == 'call' and x[1].endswith('::eq') and x[2][1] == ('bytes', b'/') and x[2][0][0] == 'call' and x[2][0][1].endswith('::as_bytes')]
-        calls = [mir.callee(tt) or '' for _, tt in P.calls(b)]
-        okk = len(one) == 1 and len(eq) == 1 and any(c.endswith('<impl [T]>::is_empty') for c in calls)
-    if not okk:
-        run.violation('wiring|is_empty', 'PathImpl::is_empty is not `bytes.is_empty() || bytes == b"/"`')
+    # is_absolute / is_empty: decided semantically (Engine S, all byte strings): true exactly on texts starting with "/" resp. on "" and "/"
+    from .. import predscan, lang
+    from ..aut import NFA as _NFA, determinize as _det
+    n2 = _NFA()
+    q0, q1 = n2.new(), n2.new()
+    n2.add(q0, 0x2f, 0x2f, q1)
+    emp_or_root = _det(n2, q0, [q0, q1], 255).minimize()
+    for fn_, pred, what in ((PI + 'is_absolute', lang.predicate_dfa('starts-with-slash', False), 'the text starts with "/"'), (PI + 'is_empty', emp_or_root, 'the text is "" or "/"')):
+        run.count('wiring_rules')
+        fs, st_ = predscan.check(P, fn_, pred, pts={0x2f, 0x30})
+        for kind, msg, where, wit in fs:
+            run.violation(f'wiring|{fn_.rsplit("::", 1)[-1]}|{kind}|{msg[:50]}', f'{fn_}: must be true exactly when {what} — {msg}' + (f'; e.g. on {wit!r}' if wit is not None else ''))
     # ---------------- derived queries
-    for fn, test in ((PI + 'first', lambda a: a[0] == 'agg' and a[1][2] == 1 and a[2][0][0] == 'field' and a[2][0][2] == 0 and a[2][0][1][0] == 'call' and a[2][0][1][1] == PI + 'segment_at'
-                      and a[2][0][1][2][1][0] == 'call' and a[2][0][1][2][1][1] == PI + 'first_segment_offset'),
-                     (PI + 'last', lambda a: a[0] == 'call' and a[1].endswith('Option::<T>::map') and a[2][0][0] == 'call' and a[2][0][1] == PI + 'previous_segment_from'
-                      and a[2][0][2][1][0] == 'field' and a[2][0][2][1][1][0] == 'binop' and a[2][0][2][1][1][3] == ('int', 1) and 'len' in str(a[2][0][2][1][1][2][1]))):
+    def step_call_ok(c, which):
+        """c is the call  segment_at(self, first_segment_offset(self))  resp.  previous_segment_from(self, len(as_bytes(self)) + 1)"""
+        try:
+            if which == 'first':
+                return c[0] == 'call' and c[1] == PI + 'segment_at' and c[2][0][:2] == ('arg', 1) and c[2][1][0] == 'call' and c[2][1][1] == PI + 'first_segment_offset'
+            a = c[2][1]
+            return (c[0] == 'call' and c[1] == PI + 'previous_segment_from' and c[2][0][:2] == ('arg', 1) and a[0] == 'field' and a[1][0] == 'binop' and a[1][1].startswith('Add')
+                    and a[1][3] == ('int', 1) and a[1][2][0] == 'call' and a[1][2][1].endswith('<impl [T]>::len') and a[1][2][2][0][0] == 'call' and a[1][2][2][0][1].endswith('::as_bytes'))
+        except (IndexError, TypeError):
+            return False
+
+    def segment_of(p, which):
+        """p (payload of a Some) is the `.0` of the step's result (for last: of the payload of the step's Option, reached by match, `?` or map)"""
+        while p[0] in ('ref', 'deref'):
+            p = p[1]
+        if p[0] != 'field' or p[2] != 0:
+            return False
+        q = p[1]
+        if which == 'first':
+            return step_call_ok(q, 'first')
+        if q[0] == 'field' and q[2] == 0:
+            q = q[1]
+            if q[0] == 'call' and q[1].endswith('Try>::branch') and q[2]:
+                q = q[2][0]
+        elif q[0] == 'payload':
+            q = q[1]
+        return step_call_ok(q, 'last')
+    for fn, which in ((PI + 'first', 'first'), (PI + 'last', 'last')):
         run.count('derived_queries')
         ga = guarded_alternatives(P, fn, '::is_empty')
         okk = False
@@ -391,18 +411,21 @@ def main(run):
             ret = T.ret()
             alts = ret[1] if ret[0] == 'phi' else (ret,)
             none = [a for a in alts if a[0] == 'agg' and a[1][:2] == ('adt', 'std::option::Option') and a[1][2] == 0]
-            rest = [a for a in alts if a not in none]
-            try:
-                okk = len(none) == 1 and len(rest) == 1 and test(rest[0])
-            except (IndexError, TypeError):
-                okk = False
+            rest = [a for a in alts if a not in none and not (a[0] == 'call' and a[1].endswith('::from_residual'))]
+            okk = len(none) >= 1 and len(rest) == 1
+            if okk:
+                r0 = rest[0]
+                if r0[0] == 'agg' and r0[1][:2] == ('adt', 'std::option::Option') and r0[1][2] == 1:
+                    okk = segment_of(r0[2][0], which)
+                elif which == 'last' and r0[0] == 'call' and r0[1].endswith('Option::<T>::map') and step_call_ok(r0[2][0], 'last'):
+                    cn = r0[2][1][1][1] if r0[2][1][0] == 'agg' else None
+                    cb = P.body(cn) if cn else None
+                    ct = terms.Terms(cb).ret() if cb else None
+                    okk = bool(ct and ct[0] == 'field' and ct[2] == 0)
+                else:
+                    okk = False
         if not okk:
             run.violation(f'derived|{fn.rsplit("::", 1)[-1]}', f'{fn} is not None when is_empty() and otherwise the segment the corresponding step returns')
-    # last()'s closure takes .0
-    cb = P.body(PI + 'last::{closure#0}')
-    run.count('derived_queries')
-    if cb is None or terms.Terms(cb).ret()[0] != 'field' or terms.Terms(cb).ret()[2] != 0:
-        run.violation('derived|last|closure', 'last() does not project the segment (.0) of the backward step')
     run.count('derived_queries')
     b = P.body(PI + 'file_name')
     t = terms.Terms(b).ret() if b else None
